@@ -22,9 +22,22 @@ RAT, DATA = ("param", "ratios"), ("param", "data")
 NONE_ = ("const", None)
 
 
+def same_ratios(t):
+    """the caller's ratio vector, possibly converted (list / tuple / array, float dtype) - the same numbers in the same order"""
+    while isinstance(t, tuple) and t and t[0] == "ext" and t[1] in ("numpy.array", "numpy.asarray", "numpy.asanyarray", "list", "tuple", "numpy.atleast_1d") and len(t[2]) == 1:
+        kw = {k: v for k, v in t[3] if k != "$draw"}
+        if not set(kw) <= {"dtype"} or kw.get("dtype", ("extref", "float")) not in (("extref", "float"), ("extref", "numpy.float64"), ("const", "float")):
+            return False
+        t = t[2][0]
+    return t == RAT
+
+
 def sum_term(t):
-    return t in (("ext", "numpy.sum", (RAT,), ()), ("ext", "sum", (RAT,), ()), ("ext", "math.fsum", (RAT,), ()),
-                 ("method", RAT, "sum", (), ()), ("ext", "numpy.sum", (("ext", "numpy.array", (RAT,), ()),), ()))
+    if isinstance(t, tuple) and t and t[0] == "ext" and t[1] in ("numpy.sum", "sum", "math.fsum") and len(t[2]) == 1:
+        return same_ratios(t[2][0])
+    if isinstance(t, tuple) and t and t[0] == "method" and t[2] == "sum" and not t[3]:
+        return same_ratios(t[1])
+    return False
 
 
 def tolerance_of(cond):
@@ -140,12 +153,39 @@ def run(prog, rep, tier):
     (lo, outer), (lin, inner) = loops
     rep.check("FLOW.environments", outer["iter"] == DATA, fwhere(f, outer["node"]), "outer loop over the environments of `data`", "outer loop runs over %s" % fmt(outer["iter"]))
     it = inner["iter"]
-    L = ("ext", "len", (RAT,), ())
-    if it == ("ext", "enumerate", (RAT,), ()):
-        idx, ratio = ("idx", RAT), ("elem", RAT)
+    if it[0] == "ext" and it[1] == "enumerate" and len(it[2]) == 1 and it[2][0][0] == "ext" and it[2][0][1] in ("numpy.split", "numpy.array_split") and len(it[2][0][2]) == 2:
+        # folds cut out with np.split(sample, cut_points): one piece per fold only if no cut point is dropped
+        cuts = it[2][0][2][1]
+        dedup = [x for x in walk(cuts) if isinstance(x, tuple) and len(x) == 4 and x[0] == "ext" and x[1] in ("numpy.unique", "set", "frozenset", "dict.fromkeys")]
+        if dedup:
+            rep.bad("CONTIG.slices", fwhere(f, inner["node"]), "the cut points pass through %s: two equal cut points (a fold of size 0) collapse into one, np.split returns "
+                    "fewer pieces than there are folds and the remaining folds receive the wrong pieces" % dedup[0][1])
+        else:
+            rep.unk("CONTIG.slices", fwhere(f, inner["node"]), "folds are cut with np.split(sample, %s): this idiom is not read further" % fmt(cuts)[:60])
+        return
+    RATL = RAT              # the ratio vector as the loop sees it: the parameter, or a converted copy holding the same numbers
+    rescaled = None
+    src = None
+    if it[0] == "ext" and it[1] == "enumerate" and len(it[2]) == 1:
+        src = it[2][0]
+    elif it[0] == "ext" and it[1] == "range" and len(it[2]) == 1 and it[2][0][0] == "ext" and it[2][0][1] == "len" and len(it[2][0][2]) == 1:
+        src = it[2][0][2][0]
+    if src is not None and src != RAT:
+        # the loop runs over another vector than the caller's ratios (e.g. ratios / sum(ratios)): the fold sizes are then
+        # round(n * something else) - with ratios summing to 0.9999999999999999 a tie n * r = k + 0.5 rounds the other way
+        if same_ratios(src):
+            RATL = src
+        else:
+            rescaled = src
+    if rescaled is not None:
+        rep.bad("SIZE.round", fwhere(f, inner["node"]), "the fold loop runs over %s, not over the caller's ratios: fold sizes are not round(len(sample) * ratio_i)" % fmt(rescaled)[:80])
+        return
+    L = ("ext", "len", (RATL,), ())
+    if it == ("ext", "enumerate", (RATL,), ()):
+        idx, ratio = ("idx", RATL), ("elem", RATL)
     elif it == ("ext", "range", (L,), ()):
         idx = ("elem", it)
-        ratio = ("sub", RAT, idx)
+        ratio = ("sub", RATL, idx)
     else:
         raise Inconclusive("split_data: fold loop iterates %s" % fmt(it), inner["node"])
     apps = [c for c in S.select("call", qname=Q) if c.callkind == "method" and c.target == ".append" and lin in c.loops]
